@@ -328,12 +328,14 @@ func c02Files(w *World, h *HistRun, i int) (fs []Finding) {
 		return []Finding{{"file-undecodable", fmt.Sprintf("file %s written by step %d %s: %s", lastWrite.Name, i, last.Op, e)}}
 	}
 	supi := strings.TrimSuffix(strings.TrimPrefix(lastWrite.Name, "/tmp/"), ".cdr")
-	recs, cdrs := supiRecords(supi)
+	recs, _ := supiRecords(supi)
 	var mem []recView
 	if last.Op.K == "release" {
-		if r := cdrs[last.Ref]; r != nil {
-			v, _ := viewRecord(r)
-			mem = []recView{v}
+		// a release writes the (last) record of the released session only
+		for _, r := range recs {
+			if v, _ := viewRecord(r); v.Sess == last.Ref {
+				mem = []recView{v}
+			}
 		}
 	} else {
 		for _, r := range recs {
